@@ -381,7 +381,7 @@ def run_x(out: Outcome, programs, prop, max_cex=8, nshards=None, timeout_s=600, 
         pname = cbmc_property_name(goto, target)
         if not pname:
             return None, "CBMC property for the failed check not found"
-        return cbmc_trace_inputs(goto, pname)
+        return cbmc_trace_inputs(goto, pname, timeout=60 if h.kind == "debug" else 300)
 
     from concurrent.futures import ThreadPoolExecutor
     with ThreadPoolExecutor(max_workers=8) as ex:
@@ -393,6 +393,11 @@ def run_x(out: Outcome, programs, prop, max_cex=8, nshards=None, timeout_s=600, 
               "harness": h.text()}
         if inputs is None:
             vo["trace_error"] = err
+            # the verifier gave no usable trace (e.g. cbmc --trace timed out on a formatting proof): try the real code on a guessed
+            # input; if that reproduces, the replay stands, marked as synthesised (not the verifier's counterexample)
+            if h.struct is not None and h.inputs:
+                full = (1 << h.struct.base_bits) - 1
+                inputs = {"in_raw": full & int("A5" * 16, 16), "in_index": 0, "in_val_v": 1, "in_val": 1, "_synthesised": 1}
         src = RP.program_source(p, h, inputs) if inputs is not None else None
         items.append({"obligation": obname, "detail": f"{c.get('function')}: {norm_ws(c.get('description', ''))[:300]}",
                       "program_text": p.decl_text(), "verifier_output": vo, "inputs": inputs, "src": src})
